@@ -1,0 +1,14 @@
+//go:build verif
+// +build verif
+
+package utxo
+
+// VerifYield, when set by a verification harness, is called between the atomic steps of the lock
+// protocol (build tag verif only). It may block: the harness uses it as a scheduler gate.
+var VerifYield func(site string, key string)
+
+func verifYield(site string, key string) {
+	if h := VerifYield; h != nil {
+		h(site, key)
+	}
+}
